@@ -83,6 +83,11 @@ func main() {
 		}
 		h := time.Duration(*hang * float64(time.Second))
 		if h == 0 {
+			if v, err := strconv.ParseFloat(os.Getenv("VERIF_HANG_S"), 64); err == nil && v > 0 {
+				h = time.Duration(v * float64(time.Second))
+			}
+		}
+		if h == 0 {
 			h = 120 * time.Second
 		}
 		self, _ := os.Executable()
